@@ -1086,3 +1086,77 @@ B("C08-sw-helper-direct", "C08", "C08:R-C08.5:tx::single_writer::keyspace::Singl
         tx.commit()?;
         Ok(())""",
   """        self.inner.insert(key, value)""")
+
+# ======================================================================== C10
+JMAN = "src/journal/manager.rs"
+WP = "src/worker_pool.rs"
+B("C10-lagging-check-flipped", "C10", "C10:R-C10.1:journal::manager::JournalManager::maintenance:lagging", JMAN,
+  """                    if keyspace_seqno < item.lsn {
+                        log::trace!(
+                            "Keyspace {:?} not flushed enough to evict journal",""",
+  """                    if keyspace_seqno > item.lsn {
+                        log::trace!(
+                            "Keyspace {:?} not flushed enough to evict journal",""")
+B("C10-none-persisted-skipped", "C10", "C10:R-C10.1:journal::manager::JournalManager::maintenance", JMAN,
+  """                    let Some(keyspace_seqno) = item.keyspace.tree.get_highest_persisted_seqno()
+                    else {
+                        return Ok(());
+                    };""",
+  """                    let Some(keyspace_seqno) = item.keyspace.tree.get_highest_persisted_seqno()
+                    else {
+                        continue;
+                    };""")
+B("C10-remove-newest", "C10", "C10:R-C10.2:journal::manager::JournalManager::maintenance", JMAN,
+  """            self.items.remove(0);""", """            self.items.pop();""")
+B("C10-seqno-map-after-rotate", "C10", "C10:R-C10.3:worker_pool::worker_tick", WP,
+  """                    let seqno_map = {
+                        #[expect(clippy::expect_used)]
+                        let keyspaces = ctx.supervisor.keyspaces.write().expect("lock is poisoned");
+
+                        ctx.supervisor.build_seqno_map(&keyspaces)
+                    };
+
+                    journal_manager.rotate_journal(&mut journal_writer, seqno_map)?;""",
+  """                    journal_manager.rotate_journal(&mut journal_writer, Vec::new())?;
+                    let _seqno_map = {
+                        #[expect(clippy::expect_used)]
+                        let keyspaces = ctx.supervisor.keyspaces.write().expect("lock is poisoned");
+
+                        ctx.supervisor.build_seqno_map(&keyspaces)
+                    };""")
+B("C10-watermark-from-persisted", "C10", "C10:R-C10.3:supervisor::Supervisor::build_seqno_map", "src/supervisor.rs",
+  "if let Some(lsn) = keyspace.tree.get_highest_memtable_seqno() {", "if let Some(lsn) = keyspace.tree.get_highest_persisted_seqno() {")
+B("C10-item-stores-new-path", "C10", "C10:R-C10.3:journal::manager::JournalManager::rotate_journal", JMAN,
+  "let (sealed_path, _) = journal_writer.rotate()?;", "let (_, sealed_path) = journal_writer.rotate()?;")
+B("C10-no-maintenance-after-flush", "C10", "C10:R-C10.5", WP,
+  """            ctx.supervisor
+                .journal_manager
+                .write()
+                .expect("lock is poisoned")
+                .maintenance()?;
+        }
+        WorkerMessage::Compact(keyspace) => {""",
+  """        }
+        WorkerMessage::Compact(keyspace) => {""")
+B("C10-recovery-watermark-first-seqno", "C10", "C10:R-C10.4:recovery::recover_sealed_memtables:watermark-is-running-max", REC,
+  """                watermarks
+                    .entry(item.keyspace_id)
+                    .and_modify(|prev| {
+                        prev.lsn = prev.lsn.max(batch.seqno);
+                    })""",
+  """                watermarks
+                    .entry(item.keyspace_id)
+                    .and_modify(|prev| {
+                        prev.lsn = prev.lsn.min(batch.seqno);
+                    })""")
+B("C10-deleted-check-inverted", "C10", "C10:R-C10.1:journal::manager::JournalManager::maintenance", JMAN,
+  """                if !item
+                    .keyspace
+                    .is_deleted
+                    .load(std::sync::atomic::Ordering::Acquire)
+                {""",
+  """                if item
+                    .keyspace
+                    .is_deleted
+                    .load(std::sync::atomic::Ordering::Acquire)
+                {""")
